@@ -4,6 +4,8 @@ import Driver.C12
 import Driver.C13
 import Driver.C11
 import Driver.C01
+import Driver.C08
+import Driver.C06
 import Driver.C10
 import Driver.C17
 
@@ -14,6 +16,8 @@ def dispatch (line : String) : String :=
   | "C13" :: r => Driver.C13.handle r
   | "C11" :: r => Driver.C11.handle r
   | "C01" :: r => Driver.C01.handle r
+  | "C08" :: r => Driver.C08.handle r
+  | "C06" :: r => Driver.C06.handle r
   | "C10" :: r => Driver.C10.handle r
   | "C17" :: r => Driver.C17.handle r
   | _ => "bad-request"
